@@ -53,6 +53,10 @@ package main
 //       ag.WaitIdle(timeout)                  until no chunk is pending in any buffer and the counters are stable
 //       ag.QueueFiles(output)                 decoded chunk files of every queue directory of that output
 //
+//   stalled worker: e2eConfig.Latch = true puts the transform type "e2eLatch" (e2e_latch.go, registered through the
+//       repo hook bconfig.VerifE2EAddTransformType) first in every pipeline: e2eLatchArm() makes the worker that meets
+//       a record whose message contains e2eLatchMarker block until e2eLatchRelease()
+//
 //   records / clients: see e2e_syslog.go:  e2eRecord, e2eMakeRecord(...), cl := e2eDial(addr, conn, tr),
 //       cl.Send(records, fragSizes), cl.SendRaw(bytes), cl.Close(abrupt)
 //
@@ -168,6 +172,7 @@ type e2eOutput struct {
 	Addr       string // upstream address (fake Fluentd)
 	Mode       string // Forward | PackedForward | CompressedPackedForward
 	MaxBufSize string // e.g. "1GB", "600B"
+	MaxDuration string // upstream.maxDuration: session rotation interval (default "30m"), e.g. "50ms"
 }
 
 // e2eConfig describes the agent under test.
@@ -176,6 +181,7 @@ type e2eConfig struct {
 	Keys        []string      // orchestration keys: {"app"} or {"app","source"}
 	Outputs     []e2eOutput   // at least one
 	StopTimeout time.Duration // watchdog for Stop (default 30 s)
+	Latch       bool          // first transformation = e2eLatch: a worker blocks on a record whose message contains e2eLatchMarker while the latch is armed
 }
 
 const e2eDropMarker = "DROPME" // a record whose pid field has this value is dropped by the "drop" transform
@@ -204,6 +210,9 @@ func (cfg *e2eConfig) yaml() string {
 	sb.WriteString("orchestration:\n  type: byKeySet\n  keys: [" + strings.Join(cfg.Keys, ", ") + "]\n  tag: " + cfg.tagTemplate() + "\n")
 	sb.WriteString("metricKeys: [host]\n")
 	sb.WriteString("transformations:\n")
+	if cfg.Latch {
+		sb.WriteString("  - type: " + e2eLatchType + "\n")
+	}
 	sb.WriteString("  - type: drop\n    match:\n      pid: " + e2eDropMarker + "\n    percentage: 100\n    metricLabel: marker\n")
 	sb.WriteString("  - type: parseTime\n    key: time\n    errorLabel: timeError\n")
 	sb.WriteString("  - type: addFields\n    fields:\n      kind: e2e-$level\n")
@@ -211,7 +220,11 @@ func (cfg *e2eConfig) yaml() string {
 	for _, o := range cfg.Outputs {
 		fmt.Fprintf(&sb, "  - name: %s\n    buffer:\n      type: hybridBuffer\n      rootPath: %s\n      maxBufSize: %s\n", o.Name, cfg.queueRoot(o.Name), o.MaxBufSize)
 		fmt.Fprintf(&sb, "    output:\n      type: fluentdForward\n      serialization:\n        environmentFields: [host]\n        hiddenFields: []\n")
-		fmt.Fprintf(&sb, "      messageMode: %s\n      upstream:\n        address: %s\n        tls: false\n        secret: \"\"\n        maxDuration: 30m\n", o.Mode, o.Addr)
+		maxDur := o.MaxDuration
+		if maxDur == "" {
+			maxDur = "30m"
+		}
+		fmt.Fprintf(&sb, "      messageMode: %s\n      upstream:\n        address: %s\n        tls: false\n        secret: \"\"\n        maxDuration: %s\n", o.Mode, o.Addr, maxDur)
 	}
 	return sb.String()
 }
@@ -251,6 +264,7 @@ func e2eQuietLogs() {
 // e2eNewAgent writes the configuration file; Start launches the agent.
 func e2eNewAgent(cfg e2eConfig, tr *e2eTrace) (*e2eAgent, error) {
 	e2eQuietLogs()
+	e2eRegisterLatch()
 	if cfg.StopTimeout == 0 {
 		cfg.StopTimeout = 30 * time.Second
 	}
